@@ -21,18 +21,34 @@ def run_drivers(repo, verif, names, outdir, timeout=1500):
     try:
         scratch = os.path.join(base, "repo")
         shutil.copytree(repo, scratch, ignore=lambda d, ns: [n for n in ns if n in ("target", ".git")], symlinks=True)
+        # the target directory is shared between runs on DIFFERENT source trees and cargo decides freshness by mtime:
+        # a copy whose files are older than the last build (e.g. the unchanged tree after a run on a modified copy)
+        # would silently reuse the stale test binary.  Bump one source file so that the crate is always rebuilt
+        # from the text that is there now (dependencies stay cached).
+        try:
+            os.utime(os.path.join(scratch, "src", "lib.rs"), None)
+        except OSError:
+            pass
         tgt = os.path.join(os.environ.get("VERIF_CACHE", os.path.join(verif, ".cache")), "replay-target")
         os.makedirs(tgt, exist_ok=True)
         env = dict(os.environ, CARGO_NET_OFFLINE="true", SURREALKV_VERIF_DIR=verif, CARGO_TARGET_DIR=tgt,
                    RUSTFLAGS=(os.environ.get("RUSTFLAGS", "") + " --cfg surrealkv_verif").strip())
         cmd = ["cargo", "test", "--offline", "--lib", "--", "--nocapture", "--test-threads", "4"] + ["::".join(n.split("::")[:-1] + ["verif_replay", n.split("::")[-1]]) for n in names]
         t0 = time.time()
+        # one build-and-run at a time per target directory: concurrent runs on DIFFERENT trees would overwrite
+        # each other's test binary between build and execution
+        import fcntl
+        lock = open(os.path.join(tgt, ".verif-run.lock"), "w")
+        fcntl.flock(lock, fcntl.LOCK_EX)
         try:
             r = subprocess.run(cmd, cwd=scratch, env=env, capture_output=True, text=True, timeout=timeout)
             out = r.stdout + "\n" + r.stderr
         except subprocess.TimeoutExpired:
             out = ""
             res["error"] = "timeout"
+        finally:
+            fcntl.flock(lock, fcntl.LOCK_UN)
+            lock.close()
         res["wall"] = time.time() - t0
         res["cmd"] = "(scratch copy of /repo) RUSTFLAGS='--cfg surrealkv_verif' SURREALKV_VERIF_DIR=%s %s" % (verif, " ".join(cmd))
         os.makedirs(outdir, exist_ok=True)
